@@ -149,6 +149,27 @@ def grammar(tier='quick', seed=0):
                 pass
             except Exception as e:
                 fails.append({'call': f'pack({plain!r}, *{bad!r})', 'observed': type(e).__name__, 'python': "FAILS = True"})
+    # list formats: pack([f1, f2], ...) == pack(f1) + pack(f2), repeatable, and f1 alone still behaves afterwards
+    for _ in range(60 if tier == 'quick' else 600):
+        toks = [rand_token(rng) for _ in range(rng.randint(2, 4))]
+        toks = [t for t in toks if t[2] is not None and not isinstance(t[2], bytes)]
+        if len(toks) < 2:
+            continue
+        fl = [spell(rng, nm, n, False, v) for nm, n, v in toks]
+        vals = [v for _, _, v in toks]
+        want = ''.join(enc(nm, n, v) for nm, n, v in toks)
+        evals += 1
+        try:
+            a = pack(list(fl), *vals).bin
+            b = pack(list(fl), *vals).bin
+            c = pack(fl[0], vals[0]).bin
+            ok = a == want and b == want and c == enc(*toks[0])
+        except Exception as e:
+            ok = False
+        if not ok:
+            fails.append({'call': f'pack({fl!r}, *{vals!r}) twice, then pack({fl[0]!r}, {vals[0]!r})',
+                          'python': f"import bitstring\ntry:\n    a = bitstring.pack({fl!r}, *{vals!r}).bin\n    b = bitstring.pack({fl!r}, *{vals!r}).bin\n"
+                                    f"    c = bitstring.pack({fl[0]!r}, {vals[0]!r}).bin\n    FAILS = not (a == b == {want!r} and c == {enc(*toks[0])!r})\nexcept Exception:\n    FAILS = True"})
     # a stated length that disagrees with the value
     for fmt, vals in (('hex:8', ['abc']), ('bin:3', ['1111']), ('bytes:2', [b'abc']), ('bits:5', ['0b1']), ('uint:3', [8]), ('int:3', [4]),
                       ('hex:8=abc', []), ('uint:3=9', [])):
